@@ -56,6 +56,10 @@ def base_values(kind, seed=0, h=H, w=W):
         v = ((r + 2 * c + seed) % 3) * 10 + 10
     elif kind == "const":
         v = 5 + 0 * (r + c)
+    elif kind == "maze":                  # open ground (1) with a full wall (9) in column 3
+        v = 1 + 0 * (r + c)
+        v = v.copy()
+        v[:, 3] = 9
     else:
         raise ValueError(kind)
     return np.asarray(v, dtype=np.float64) + np.zeros((h, w))
@@ -93,9 +97,13 @@ def std_attrs(family=0):
     (what bump() / datashader emit), 2 a list, 3 a 3-tuple, 4 a string, 5 a 2-tuple of NumPy scalars; next to unrelated attrs
     (crs, units, nested list / dict).  The cell size is 2.0 in every family (families 3-5 fall back to the coordinates)."""
     np = _np()
-    res = {0: (2.0, 2.0), 1: 2.0, 2: [2.0, 2.0], 3: (2.0, 2.0, 1.0), 4: "2 m", 5: (np.float32(2.0), np.float64(2.0))}[family]
-    return {"res": res, "crs": "EPSG:3857", "units": "m", "nodatavals": [-9999.0],
-            "meta": {"source": "verif", "tags": ["a", "b"]}}
+    res = {0: (2.0, 2.0), 1: 2.0, 2: [2.0, 2.0], 3: (2.0, 2.0, 1.0), 4: "2 m", 5: (np.float32(2.0), np.float64(2.0)),
+           6: (0.5, 0.5)}[family]
+    at = {"res": res, "crs": "EPSG:3857", "units": "m", "nodatavals": [-9999.0],
+          "meta": {"source": "verif", "tags": ["a", "b"]}}
+    if family == 6:
+        at["unit"] = "km"                # a non-metre `unit` with float cell sizes (use coordscale=0.25: spacing 0.5)
+    return at
 
 
 def mk_raster(kind, dtype, layout="C", backend="numpy", seed=0, nan=False, name="r", h=H, w=W, chunks=(4, 4),
@@ -215,6 +223,8 @@ def backend_of(data):
 
 def kernel(name):
     np = _np()
+    if isinstance(name, np.ndarray):
+        return name                      # an existing kernel object (shared by the calls of a C11 session)
     if name == "one1":
         return np.ones((1, 1), dtype=np.float64)
     if name == "cross3":
